@@ -21,14 +21,25 @@ open RotoV
 /-- `==` of two bound variables: list equality, store unchanged -/
 theorem step_eq_ok {sz : Nat} {s : St} (inv : Inv sz s) {a b x y : Nat} {lx ly : RawList} (typed : Bool)
     (hsa : s.slots[a]? = some (some x)) (hsb : s.slots[b]? = some (some y))
-    (hx : s.getAlloc x = some lx) (hy : s.getAlloc y = some ly) :
+    (hx : s.getAlloc x = some lx) (hy : s.getAlloc y = some ly)
+    (hp : ∀ e ∈ lx.elems, e < f64Base) :
     step sz s (.eq a b typed) = (.bool (decide (lx.elems = ly.elems)), s) := by
+  have hans : (if x = y then true else listEq lx.elems ly.elems) = decide (lx.elems = ly.elems) := by
+    by_cases hxy : x = y
+    · subst hxy
+      rw [hx] at hy; injection hy with hy; subst hy
+      simp
+    · rw [if_neg hxy, listEq_plain hp]
   have : stepE sz s (.eq a b typed) = .ok (.bool (decide (lx.elems = ly.elems)), s) := by
+    rw [← hans]
     simp only [stepE, slot_ok hsa, slot_ok hsb]
     cases typed with
     | true => simp only [if_true]; exact typedEq_ok inv hx hy
     | false => simp only [Bool.false_eq_true, if_false]; exact erasedEq_ok inv hx hy
   simp only [step, this]
+
+/-- the inner lists hold plain values (integers, ids): their `==` is equality of the contents -/
+def PlainLists (cs : List (List Nat)) : Prop := ∀ c ∈ cs, ∀ e ∈ c, e < f64Base
 
 /-- the contents a variable shows -/
 def St.contents (s : St) (h : Nat) : Option (List Nat) :=
@@ -87,11 +98,11 @@ def allContents (s : St) : List Nat → Option (List (List Nat))
 
 theorem containsN_ok {sz : Nat} {s : St} (inv : Inv sz s) (typed : Bool) (item : Nat) {ci : List Nat}
     (hi : s.contents item = some ci) :
-    ∀ (elems : List Nat) (cs : List (List Nat)), allContents s elems = some cs →
+    ∀ (elems : List Nat) (cs : List (List Nat)), allContents s elems = some cs → PlainLists cs →
       containsN sz typed s elems item = (.bool (cs.contains ci), s)
-  | [], cs, h => by
+  | [], cs, h, _ => by
     simp [allContents] at h; subst h; simp [containsN]
-  | k :: ks, cs, h => by
+  | k :: ks, cs, h, hpl => by
     simp only [allContents] at h
     cases hk : s.contents k with
     | none => simp [hk] at h
@@ -103,7 +114,7 @@ theorem containsN_ok {sz : Nat} {s : St} (inv : Inv sz s) (typed : Bool) (item :
         subst h
         obtain ⟨x, lx, hsa, hx, ex⟩ := contents_some inv hk
         obtain ⟨y, ly, hsb, hy, ey⟩ := contents_some inv hi
-        have he := step_eq_ok inv typed hsa hsb hx hy
+        have he := step_eq_ok inv typed hsa hsb hx hy (by rw [ex]; exact hpl c (by simp))
         unfold containsN
         rw [he, ex, ey]
         by_cases hc : c = ci
@@ -111,28 +122,28 @@ theorem containsN_ok {sz : Nat} {s : St} (inv : Inv sz s) (typed : Bool) (item :
         · have hne : (c == ci) = false := by simp [hc]
           have hne' : (ci == c) = false := by simp [Ne.symm hc]
           simp only [hc, decide_false]
-          rw [containsN_ok inv typed item hi ks cs' hks]
+          rw [containsN_ok inv typed item hi ks cs' hks (fun d hd => hpl d (by simp [hd]))]
           congr 1
           rw [List.contains_cons, hne', Bool.false_or]
 
 theorem eqN_ok {sz : Nat} {s : St} (inv : Inv sz s) (typed : Bool) :
     ∀ (as bs : List Nat) (ca cb : List (List Nat)), allContents s as = some ca → allContents s bs = some cb →
-      eqN sz typed s as bs = (.bool (decide (ca = cb)), s)
-  | [], [], ca, cb, h1, h2 => by
+      PlainLists ca → eqN sz typed s as bs = (.bool (decide (ca = cb)), s)
+  | [], [], ca, cb, h1, h2, _ => by
     simp [allContents] at h1 h2; subst h1 h2; simp [eqN]
-  | [], j :: js, ca, cb, h1, h2 => by
+  | [], j :: js, ca, cb, h1, h2, _ => by
     simp only [allContents] at h1 h2
     injection h1 with h1; subst h1
     cases hj : s.contents j <;> cases hjs : allContents s js <;> simp [hj, hjs] at h2
     subst h2
     simp [eqN]
-  | k :: ks, [], ca, cb, h1, h2 => by
+  | k :: ks, [], ca, cb, h1, h2, _ => by
     simp only [allContents] at h1 h2
     injection h2 with h2; subst h2
     cases hk : s.contents k <;> cases hks : allContents s ks <;> simp [hk, hks] at h1
     subst h1
     simp [eqN]
-  | k :: ks, j :: js, ca, cb, h1, h2 => by
+  | k :: ks, j :: js, ca, cb, h1, h2, hpl => by
     simp only [allContents] at h1 h2
     cases hk : s.contents k with
     | none => simp [hk] at h1
@@ -151,13 +162,13 @@ theorem eqN_ok {sz : Nat} {s : St} (inv : Inv sz s) (typed : Bool) :
             subst h1 h2
             obtain ⟨x, lx, hsa, hx, ex⟩ := contents_some inv hk
             obtain ⟨y, ly, hsb, hy, ey⟩ := contents_some inv hj
-            have he := step_eq_ok inv typed hsa hsb hx hy
+            have he := step_eq_ok inv typed hsa hsb hx hy (by rw [ex]; exact hpl c (by simp))
             unfold eqN
             rw [he, ex, ey]
             by_cases hc : c = d
             · subst hc
               simp only [decide_true]
-              rw [eqN_ok inv typed ks js cs ds hks hjs]
+              rw [eqN_ok inv typed ks js cs ds hks hjs (fun d hd => hpl d (by simp [hd]))]
               simp
             · simp [hc]
 
@@ -168,11 +179,11 @@ def firstIdxL (c : List Nat) : List (List Nat) → Nat → Option Nat
 
 theorem indexN_ok {sz : Nat} {s : St} (inv : Inv sz s) (typed : Bool) (item : Nat) {ci : List Nat}
     (hi : s.contents item = some ci) :
-    ∀ (elems : List Nat) (cs : List (List Nat)) (i : Nat), allContents s elems = some cs →
+    ∀ (elems : List Nat) (cs : List (List Nat)) (i : Nat), allContents s elems = some cs → PlainLists cs →
       indexN sz typed s elems item i = (.opt (firstIdxL ci cs i), s)
-  | [], cs, i, h => by
+  | [], cs, i, h, _ => by
     simp [allContents] at h; subst h; simp [indexN, firstIdxL]
-  | k :: ks, cs, i, h => by
+  | k :: ks, cs, i, h, hpl => by
     simp only [allContents] at h
     cases hk : s.contents k with
     | none => simp [hk] at h
@@ -184,13 +195,13 @@ theorem indexN_ok {sz : Nat} {s : St} (inv : Inv sz s) (typed : Bool) (item : Na
         subst h
         obtain ⟨x, lx, hsa, hx, ex⟩ := contents_some inv hk
         obtain ⟨y, ly, hsb, hy, ey⟩ := contents_some inv hi
-        have he := step_eq_ok inv typed hsa hsb hx hy
+        have he := step_eq_ok inv typed hsa hsb hx hy (by rw [ex]; exact hpl c (by simp))
         unfold indexN
         rw [he, ex, ey]
         by_cases hc : c = ci
         · subst hc; simp [firstIdxL]
         · simp only [hc, decide_false]
-          rw [indexN_ok inv typed item hi ks cs' (i + 1) hks]
+          rw [indexN_ok inv typed item hi ks cs' (i + 1) hks (fun d hd => hpl d (by simp [hd]))]
           simp [firstIdxL, hc]
 
 end RotoV.ListM
